@@ -33,9 +33,7 @@ VERIF_MAIN {
     if (i == 0 || X[i] != X[i - 1]) { px[np] = X[i]; py[np] = i; np++; }
     else if (i + 1 < NK && X[i] != X[i + 1] && X[i] + 1 < X[i + 1]) { px[np] = X[i] + 1; py[np] = i; np++; }   /* guard point after a duplicated run */
   }
-#if CHUNKS <= 1
-  px[np] = X[NK - 1] + 1; py[np] = NK; np++;        /* closing point (sequential build: always fed) */
-#endif
+  px[np] = X[NK - 1] + 1; py[np] = NK; np++;        /* closing point: fed by the chunk that reaches n */
   for (int j = 0; j < 2 * NK + 2; j++) if (j < np) {
     /* covering segment: the last one whose first key is <= px[j] */
     int c = 0;
